@@ -550,7 +550,12 @@ C11.manifest = {
             "over the arcs of the edge list (C11_clustering_directed_wf); square_clustering on an undirected graph = Lind's "
             "coefficient and it returns whenever the requested names are nodes (C11_square_wf, C11_square_total_wf; sums "
             "over unordered pairs are permutation invariant); hence every value returned by clustering (both kinds) and by "
-            "square_clustering (undirected) lies in [0,1] (C11_clustering_range_wf, C11_square_range_wf). Tied to the "
+            "square_clustering (undirected) lies in [0,1] (C11_clustering_range_wf, C11_square_range_wf); TOTALITY "
+            "(C11_total_wf): on every coherent single-edge state, node_names = None or any list of nodes, clustering (both "
+            "kinds), average_clustering and - undirected - triangles, generalized_degree, transitivity RETURN: no unwrap "
+            "fails and no float division by zero happens (the denominators are positive whenever the numerator is); "
+            "average_clustering = the mean of the counted clustering values, None when nothing is counted "
+            "(C11_average_is_mean, every graph state). Tied to the "
             "code on every run: triangles, clustering (unweighted both kinds, and the weighted forms on perfect-cube "
             "weights where the cube roots are rational and the model exact), average_clustering (count_zeros both ways), "
             "transitivity, generalized_degree, square_clustering for node_names = None, every non-empty subset (sampled "
@@ -560,12 +565,9 @@ C11.manifest = {
             "implementation's output and checks [0,1], subset consistency and refusals.",
     "note": "Now proved (formerly validated per case): nbr_ok_b, adjacency = edge list, model = definition for "
             "generalized_degree / square_clustering (Lind) / directed clustering (Fagiolo), the [0,1] range of the directed "
-            "and square coefficients. Still validated per case only: average_clustering = mean of the clustering map "
-            "(compared with the definition per case), and the weighted forms: modelled (not "
+            "and square coefficients. Still validated per case only: the weighted forms: modelled (not "
             "proved) and compared only on weights that are perfect cubes (IEEE cbrt is not modelled; 1e-9 tolerance); "
-            "their definitions are checked by the Python oracle in floats. The theorems for triangles / clustering / "
-            "transitivity / generalized_degree are partial-correctness statements (for every call that returns Ok); "
-            "that they do return on coherent states is observed per case, proved only for square_clustering. "
+            "their definitions are checked by the Python oracle in floats. "
             "square_clustering on DIRECTED graphs is only "
             "required not to panic (its value depends on HashSet iteration order - `u_nbrs.contains(w)` is asymmetric - "
             "and the property does not fix it; only its key set is compared). Trusted: Coq kernel + vm_compute; "
